@@ -54,10 +54,7 @@ theorem compile_eq (s : Stage) : Gen.C08.compile s = compile s := by
 /-- hence the composed programs coincide -/
 theorem program_eq (c : Config) : (Gen.C08.build c).flatMap Gen.C08.compile = program (build c) := by
   rw [build_eq]
-  unfold program
-  congr 1
-  funext s
-  exact compile_eq s
+  exact congrArg (fun f => (build c).flatMap f) (funext compile_eq)
 
 /-! ## phase 3 — the second builder pair, signatures, defaults, wrappers, call forms -/
 
@@ -79,10 +76,7 @@ theorem build_post_eq (c : Config) : Gen.C08.build_post c = buildPost c :=
 theorem program_prepost_eq (c : Config) :
     (Gen.C08.build_pre c ++ Gen.C08.build_post c).flatMap Gen.C08.compile = program (buildPrePost c) := by
   rw [build_pre_eq, build_post_eq]
-  unfold program buildPrePost
-  congr 1
-  funext s
-  exact compile_eq s
+  exact congrArg (fun f => (buildPre c ++ buildPost c).flatMap f) (funext compile_eq)
 
 /-- **every parameter of the four builders is the one the model knows, classified as the model classifies it**: a new
 parameter, a renamed or re-ordered one changes the generated table -/
